@@ -103,8 +103,15 @@ def ob_conflict(cx):
     if not inside:
         cx.assume(False)
     k = cx.pick("perturb", inside)
-    bad = _line(cx, "bad")
-    cx.assume(bad != old[k])
+    if cx.pick("difference", ["content", "final_newline"]) == "content":
+        bad = _line(cx, "bad")
+        cx.assume(bad != old[k])
+    else:
+        # the text to patch ends without a newline where the diff's old side has one: still a different text
+        if k != len(old) - 1:
+            cx.assume(False)
+        bad = old[k][:-1]
+        cx.cover("terminator_only")
     old2 = list(old)
     old2[k] = bad
     raised = None
@@ -249,8 +256,9 @@ def obligations(tier):
         Ob("apply_and_stats", ob_apply, [PT], p, to, 2 if q else 1, ["ins+rem"] + ([] if q else ["two_hunks"]),
            bounds="<= %(nhunks)d hunk(s) of <= %(hlen)d lines (each context/insert/remove), <= %(lead)d unchanged lines "
                   "around, symbolic %(lline)d-byte line contents" % p),
-        Ob("conflict", ob_conflict, [PT], p, to, 2 if q else 1, ["conflict"], known=["C39-patchconflict-typeerror"],
-           bounds="one hunk of <= %(hlen)d lines, one perturbed old line inside the hunk" % p),
+        Ob("conflict", ob_conflict, [PT], p, to, 2 if q else 1, ["conflict", "terminator_only"],
+           bounds="one hunk of <= %(hlen)d lines, one perturbed old line inside the hunk (different content, or the same "
+                  "content without its final newline at the end of the text)" % p),
         Ob("line_format", ob_lines, [PT], p, to, 1, KINDS,
            bounds="line contents <= %(lcontent)d arbitrary bytes; positions/ranges < 10^5" % p),
         Ob("generate_parse_apply", ob_generate, [PT, DF], dict(lline=1, glines=5 if q else 7, contexts=[0, 1, 3]), to,
